@@ -99,6 +99,13 @@ class _YieldingLock(asyncio.Lock):
         world = CURRENT
         if world is not None and world.buggify('lock_yield'):
             await asyncio.sleep(0)
+        if world is not None and world.buggify('lock_stall'):
+            # the acquire has to wait for a holder outside this loop (the
+            # threaded subsystem, another process): long enough for other
+            # sessions to run whole commands meanwhile
+            rng = world.sched_rng
+            await asyncio.sleep(rng.choice([0.001, 0.01, 0.05, 0.2])
+                                if rng is not None else 0.01)
         return await super().acquire()
 
     async def __aexit__(self, exc_type, exc, tb):
